@@ -71,20 +71,20 @@ def plan(tier):
         ("projx 3x1 (all)", "projx", [[3, 1]], 1, 729, 729),
         ("projx 2x2 (all)", "projx", [[2, 2]], 1, 6561, 1100),
         ("projx 4x1 (all)", "projx", [[4, 1]], 1, 6561, 1100),
-        ("proj a=2", "proj", [[3, 2], [4, 2], [2, 2], [4, 1], [3, 1], [2, 1]], 2, 4800, 800),
-        ("proj a=1", "proj", [[4, 3], [5, 2], [3, 3], [5, 1], [6, 2], [6, 1], [4, 4]], 1, 2800, 700),
-        ("chord", "chord", [[2, 1], [3, 1], [3, 2], [4, 1], [4, 2], [2, 2]], 1, 6000, 1000),
-        ("smw 2,3 a=2", "smw", SQ(2, 3), 2, 3000, 750),
-        ("smw 1,4 a=1", "smw", SQ(1, 4), 1, 800, 400),
+        ("proj a=2", "proj", [[3, 2], [4, 2], [2, 2], [4, 1], [3, 1], [2, 1]], 2, 12000, 1000),
+        ("proj a=1", "proj", [[4, 3], [5, 2], [3, 3], [5, 1], [6, 2], [6, 1], [4, 4]], 1, 7000, 1000),
+        ("chord", "chord", [[2, 1], [3, 1], [3, 2], [4, 1], [4, 2], [2, 2]], 1, 15000, 1000),
+        ("smw 2,3 a=2", "smw", SQ(2, 3), 2, 8000, 1000),
+        ("smw 1,4 a=1", "smw", SQ(1, 4), 1, 2000, 500),
         ("conv", "conv", [[1, 1]], 30, 549, 549),
         ("ebn0", "ebn0", [[1, 1]], 30, 610, 610),
-        ("eig N<=4 a=2", "eig", SQ(2, 3, 4), 2, 3000, 750),
-        ("eig N<=8 a=1", "eig", SQ(2, 3, 4, 5, 6, 7, 8), 1, 2800, 700),
-        ("svd <=4 a=2", "svd", [[r, c] for r in range(1, 5) for c in range(1, 5)], 2, 4800, 800),
-        ("svd <=8 a=1", "svd", ALL_SHAPES_8, 1, 3840, 640),
-        ("gmd", "gmd", ALL_SHAPES_8, 2, 3200, 800),
-        ("whiten", "whiten", ALL_SHAPES_8, 2, 3200, 800),
-        ("eigrel", "eigrel", [[r, c] for r in range(1, 10) for c in range(1, 9) if r >= c], 2, 2400, 800),
+        ("eig N<=4 a=2", "eig", SQ(2, 3, 4), 2, 7500, 750),
+        ("eig N<=8 a=1", "eig", SQ(2, 3, 4, 5, 6, 7, 8), 1, 7000, 700),
+        ("svd <=4 a=2", "svd", [[r, c] for r in range(1, 5) for c in range(1, 5)], 2, 12000, 1000),
+        ("svd <=8 a=1", "svd", ALL_SHAPES_8, 1, 9600, 640),
+        ("gmd", "gmd", ALL_SHAPES_8, 2, 8000, 800),
+        ("whiten", "whiten", ALL_SHAPES_8, 2, 8000, 800),
+        ("eigrel", "eigrel", [[r, c] for r in range(1, 10) for c in range(1, 9) if r >= c], 2, 6000, 750),
     ]
 
 
